@@ -165,4 +165,14 @@ PROPS = {
         thorough=dict(budget_s=1800, profiles=[P("C14", 8000), P("C14", 2000, "long"), P("C14", 2000, "valid-only")]),
         reach=["c14_history_steps", "c14_probe_requests_served"],
     ),
+    "C20": dict(
+        level="exploration",
+        rule="3-4 masters with 2-4 healthy replicas each, replica reads enabled, about 300 read commands per master (12 read command types) mixed with "
+             "writes from 1-3 pipelining clients under seeded schedules; variant with one replica refusing connections; oracle: every replica that was "
+             "healthy for the whole run served at least one of >=200 reads of its master (miss probability < 1e-35 under uniform choice), writes only "
+             "at masters; non-trivial = more than 400 reads observed",
+        quick=dict(budget_s=90, profiles=[P("C20", 60), P("C20", 20, "banned")]),
+        thorough=dict(budget_s=1200, profiles=[P("C20", 2000), P("C20", 600, "banned")]),
+        reach=["c20_reads"],
+    ),
 }
